@@ -54,6 +54,8 @@ struct PktDesc
     int retype = 0;  // 1..3: the packet is first given a payload of another type and re-typed through getPayload() afterwards
     bool viaCopy = false;  // the packet handed to the encoder is a copy of the one that was built
     bool keepHeader = false;  // kept objects only: the object keeps its header fields, nothing but the payload data is edited (in place)
+    int viaRef = 0;  // kept objects only (with keepHeader): the payload is replaced (1) or re-typed (2 payload type, 3 message type)
+                     // through the Payload reference obtained before the previous encode; no Packet member is called
 };
 
 struct Batch
@@ -1256,13 +1258,88 @@ void kindCase(long idx, Batch& b, Rng& r)
     b.overload = 0;
 }
 
+// C01 only (its domain has no upper bound on the maximum; C07 / C08 stop at 65535 + 24): frame sizes above 64 KiB, where no
+// packet is ever segmented and aggregation carries messages past frame offsets 65536, 131072, ...
+constexpr long kBigMax = 96;
+bool bigMaxCase(long idx, Batch& b, Rng& r)
+{
+    static const size_t maxes[] = {65560, 65561, 65600, 66000, 70000, 100000, 131072 + 24, 131072 + 40, 200000, 262144 + 8, 300000, 1000000};
+    b.cfg.max = maxes[idx % 12];
+    long shape = (idx / 12) % 8;
+    b.cfg.min = (idx % 5 == 0) ? b.cfg.max : ((idx % 7 == 0) ? 70000 % (b.cfg.max + 1) : 0);
+    Kind k = (idx % 3) ? K_GEN_DATA : K_GEN_STATUS;
+    auto same = [&](size_t len) {
+        PktDesc d = genPkt(r, k, len, 1);
+        if (!b.pkts.empty())
+            d.msgType = b.pkts.front().msgType;
+        b.pkts.push_back(std::move(d));
+    };
+    switch (shape)
+    {
+        case 0:  // the largest payload, then small ones that start behind offset 65536
+            same(65535);
+            for (int i = 0; i < 6; ++i)
+                same(1 + static_cast<size_t>(i) * 7);
+            break;
+        case 1:  // many mid-sized packets: message starts on both sides of every multiple of 65536 the frame reaches
+            for (size_t i = 0, n = 30 + static_cast<size_t>(idx % 120); i < n; ++i)
+                same(2000 + (i % 5));
+            break;
+        case 2:  // a message header that straddles offset 65536 (starts at 65536 - d, d in 1..15)
+        {
+            size_t d = 1 + static_cast<size_t>(idx / 96 + idx) % 15;
+            same(65536 - d - 8 - 16);
+            same(100);
+            same(50);
+            break;
+        }
+        case 3:  // a message that starts exactly at offset 65536 / 131072
+        {
+            size_t target = (idx % 2) ? 131072 : 65536;
+            size_t used = 8;
+            while (used + 16 + 60000 + 16 < target)
+            {
+                same(60000);
+                used += 16 + 60000;
+            }
+            same(target - used - 16);
+            same(300);
+            same(1);
+            break;
+        }
+        case 4:  // two largest payloads and a tail
+            same(65535);
+            same(65535);
+            same(65535);
+            same(9);
+            break;
+        case 5:  // thousands of tiny packets
+            for (size_t i = 0; i < 4500; ++i)
+                same(1 + i % 3);
+            break;
+        case 6:  // mixed message types: a type switch behind offset 65536
+            same(65000);
+            same(600);
+            b.pkts.push_back(genPkt(r, k == K_GEN_DATA ? K_GEN_STATUS : K_GEN_DATA, 40, 1));
+            same(41);
+            break;
+        default:  // random lengths
+            for (size_t i = 0, n = 2 + r.below(60); i < n; ++i)
+                same(r.chance(1, 4) ? 1 + r.below(65535) : 1 + r.below(5000));
+            break;
+    }
+    b.overload = static_cast<int>(idx % 3);
+    return true;
+}
+
 struct Plan
 {
+    long bigMax = 0;
     long sweep1 = 0, sweep2 = 0, minSweep = 0, topSweep = 0, countSweep = 0, kinds = 0, empty = 0, randomBatches = 0;
     long histDet = 0, histRandom = 0;
     long total() const
     {
-        return sweep1 + sweep2 + minSweep + topSweep + countSweep + kinds + empty + randomBatches + histDet + histRandom;
+        return sweep1 + sweep2 + minSweep + topSweep + countSweep + kinds + empty + randomBatches + histDet + histRandom + bigMax;
     }
 };
 
@@ -1286,6 +1363,8 @@ Plan plan(const Ctx& c)
         p.randomBatches = th ? 2000000 : 150000;
         p.histDet = kHistDetPairs + 3;  // all ordered pairs of canonical shapes + the three histories with aborted calls
         p.histRandom = th ? 200000 : 12000;
+        if (c.prop == "C01")
+            p.bigMax = th ? kBigMax * 20 : kBigMax;
     }
     else
     {
@@ -1547,6 +1626,43 @@ void adaptBatchToKept(Batch& b, const KeptObjects& k, Rng& r)
     for (size_t i = 0; i < b.pkts.size(); ++i)
     {
         PktDesc& d = b.pkts[i];
+        if (i < k.descs.size() && k.descs[i].version == d.version && r.chance(1, 4))
+        {
+            // "same packet object, other payload": between the two encodes the caller touches nothing but the Payload reference
+            const PktDesc& o = k.descs[i];
+            const bool oldGeneric = (o.kind == K_GEN_DATA || o.kind == K_GEN_STATUS) && o.ptype >= 9;
+            unsigned m = static_cast<unsigned>(r.below(3));
+            d.keepHeader = true;
+            d.ts = o.ts;
+            d.ifid = o.ifid;
+            d.vendor = o.vendor;
+            d.flags = o.flags;
+            d.pktSeq = o.pktSeq;
+            d.pktDev = o.pktDev;
+            d.pktStream = o.pktStream;
+            d.typedCtor = false;
+            d.retype = 0;
+            d.viaCopy = false;
+            if (m == 0 || !oldGeneric)
+                d.viaRef = 1;
+            else if (m == 1)
+            {
+                d.viaRef = 2;
+                d.kind = o.kind;
+                d.msgType = o.msgType;
+                d.payload = o.payload;
+                d.ptype = static_cast<uint8_t>(r.range(9, 255));
+            }
+            else
+            {
+                d.viaRef = 3;
+                d.kind = o.kind == K_GEN_DATA ? K_GEN_STATUS : K_GEN_DATA;
+                d.msgType = o.kind == K_GEN_DATA ? wire::MT_STATUS : wire::MT_DATA;
+                d.payload = o.payload;
+                d.ptype = o.ptype;
+            }
+            continue;
+        }
         const bool oldEth = i < k.descs.size() && k.descs[i].kind == K_ETH && k.descs[i].payload.size() >= 6;
         if (d.payload.size() < 6 || d.msgType != wire::MT_DATA)
             continue;
@@ -1597,6 +1713,19 @@ std::vector<std::vector<uint8_t>> runEncodeKept(Ctx& c, Encoder& enc, Batch& b, 
         Packet& p = k.objs[i];
         const PktDesc& old = k.descs[i];
         const size_t len = d.payload.size();
+        if (d.viaRef)
+        {
+            using MT = ASAM::CMP::CmpHeader::MessageType;
+            if (d.viaRef == 1)
+                *k.refs[i] = Payload(PayloadType(static_cast<MT>(d.msgType), d.ptype), d.payload.data(), len);
+            else if (d.viaRef == 2)
+                k.refs[i]->setRawPayloadType(d.ptype);
+            else
+                k.refs[i]->setMessageType(static_cast<MT>(d.msgType));
+            k.descs[i] = d;
+            c.count("kept_packets_whose_payload_was_replaced_or_retyped_through_an_earlier_reference");
+            continue;
+        }
         const bool ethInPlace = d.kind == K_ETH && old.kind == K_ETH && old.msgType == d.msgType && len >= 6 && old.payload.size() >= 6 && wire::get16(d.payload.data() + 4) == len - 6;
         if (ethInPlace)
         {
@@ -2035,9 +2164,19 @@ void runCase(Ctx& c, long idx)
         return;
     }
     i -= p.histDet;
+    if (i < p.histRandom)
     {
         Rng r = c.caseRng(idx);
         runHistory(c, randomHistory(c, r), r);
+        return;
+    }
+    i -= p.histRandom;
+    {
+        Rng r = (i < kBigMax) ? c.fixedRng(idx) : c.caseRng(idx);
+        ids(r, dev, stream);
+        bigMaxCase(i, b, r);
+        runBatchCase(c, b, r, dev, stream);
+        c.count("frame_sizes_above_64KiB_cases");
     }
 }
 
